@@ -84,7 +84,8 @@ def confirm(mid):
     return ok
 
 
-DETECT_WT = "/tmp/wt/detect"
+TAG = os.environ.get("VERIF_DETECT_TAG", "")
+DETECT_WT = "/tmp/wt/detect" + TAG
 
 
 def detect(mid, tier="quick", props=None):
@@ -99,9 +100,9 @@ def detect(mid, tier="quick", props=None):
     sh("git checkout -q --detach $(git -C /repo rev-parse HEAD) && git checkout -- . && git clean -fdq", cwd=DETECT_WT)
     pid = mid.split("-")[0]
     results = {}
-    env = dict(VERIF_REPO=DETECT_WT, VERIF_KANI_TARGET_SUFFIX="-detect",
-               VERIF_EVIDENCE_DIR=os.path.join(VERIF, ".work", "detect-evidence"),
-               VERIF_REPLAY_DIR=os.path.join(VERIF, ".work", "detect-replays"))
+    env = dict(VERIF_REPO=DETECT_WT, VERIF_KANI_TARGET_SUFFIX="-detect" + TAG,
+               VERIF_EVIDENCE_DIR=os.path.join(VERIF, ".work", "detect-evidence" + TAG),
+               VERIF_REPLAY_DIR=os.path.join(VERIF, ".work", "detect-replays" + TAG))
     os.makedirs(env["VERIF_EVIDENCE_DIR"], exist_ok=True)
     try:
         rc, out = sh(f"git apply {d}/patch.diff", cwd=DETECT_WT)
